@@ -168,6 +168,8 @@ def run_gen(ctx, case):
                 ctx.count('rejected_conformation_illconditioned')
                 continue
             w = {'edges': edges, 'ref': pos, 'target': tpos, 's': s, 'conformation': conf}
+            if c == 1:
+                emmon.disturb(ctx, emap, tgtm, refm)
             # the molecules returned for earlier conformations are kept and looked at again: their atoms must stay where
             # the shape law puts them for THEIR conformation, whatever is mapped afterwards
             for (res_old, snap_old, c_old) in kept:
